@@ -2,6 +2,7 @@ package main
 
 import (
 	"fmt"
+	"go/ast"
 	"go/constant"
 	"go/token"
 	"go/types"
@@ -22,6 +23,8 @@ type Exec struct {
 	goals       []*Goal
 	trivial     map[string]int
 	trivialMeta map[string]*Goal
+	boundSites  map[string]bool
+	boundLoops  map[string]bool
 	leaves      []*node
 	ghostVars   map[string]string
 	notes       map[string]bool // assumptions / abstractions used
@@ -135,7 +138,7 @@ func shortFn(f *ssa.Function) string {
 // ---------------------------------------------------------------------------
 
 func (x *Exec) newState() *State {
-	s := &State{w: x.w, x: x, heap: map[string]Term{}, declared: map[string]bool{}, ghost: map[string]Term{},
+	s := &State{w: x.w, x: x, heap: map[string]Term{}, declared: map[string]bool{}, ghost: map[string]Term{}, freshRefs: map[string]bool{}, dirty: map[string]bool{},
 		closures: map[string]*ClosureVal{}, oldHeap: map[string]Term{}, oldGhost: map[string]Term{}}
 	s.alloc = s.declare("$alloc@0", "Int")
 	s.oldAlloc = s.alloc
@@ -147,6 +150,7 @@ func (s *State) newRef(hint string) Term {
 	r := s.fresh(hint, "Int")
 	s.assume(app("Bool", ">", r, s.alloc))
 	s.alloc = r
+	s.freshRefs[r.S] = true
 	return r
 }
 
@@ -330,6 +334,12 @@ func (s *State) rebuild(old Term, path []int, v Term) Term {
 	return s.w.updField(old, path[0], inner)
 }
 
+func (s *State) markWrite(arr string, base Term) {
+	if !s.freshRefs[base.S] {
+		s.dirty[arr] = true
+	}
+}
+
 func (s *State) store(p *PtrVal, v Term) {
 	w := s.w
 	switch p.kind {
@@ -346,9 +356,11 @@ func (s *State) store(p *PtrVal, v Term) {
 			s.x.unsup("store of whole opaque struct %s", p.rootT)
 		}
 		arr := w.fieldArray(structKeyOf(p.rootT), pathNames(p.rootT, p.path), w.sortOf(leaf))
+		s.markWrite(arr, p.base)
 		s.setH(arr, mkStore(s.H(arr), p.base, v))
 	case pkElem:
 		arr := w.elemArray(p.rootT)
+		s.markWrite(arr, p.base)
 		row := mkSelect(s.H(arr), p.base)
 		nv := v
 		if len(p.path) > 0 {
@@ -357,6 +369,7 @@ func (s *State) store(p *PtrVal, v Term) {
 		s.setH(arr, mkStore(s.H(arr), p.base, mkStore(row, p.idx, nv)))
 	case pkCell:
 		arr := w.cellArray(p.rootT)
+		s.markWrite(arr, p.base)
 		nv := v
 		if len(p.path) > 0 {
 			nv = s.rebuild(mkSelect(s.H(arr), p.base), p.path, v)
@@ -615,6 +628,11 @@ func (x *Exec) step(s *State, in ssa.Instruction) bool {
 	adv := func() bool { fr.idx++; return true }
 	switch v := in.(type) {
 	case *ssa.DebugRef:
+		if id, ok := v.Expr.(*ast.Ident); ok && id.Name != "_" {
+			if _, has := fr.regs[v.X]; has || isConstOrGlobal(v.X) {
+				fr.locals[id.Name] = localRef{v.X, v.IsAddr}
+			}
+		}
 		return adv()
 	case *ssa.Alloc:
 		elem := v.Type().(*types.Pointer).Elem()
@@ -690,6 +708,8 @@ func (x *Exec) step(s *State, in ssa.Instruction) bool {
 		s.goal(x.siteName(fr, "nil-map-write", in), "safety", []string{"C14"}, mkNot(mkEq(m, intLit(0))), x.pos(in), "")
 		dom, val := w.mapArrays(mt)
 		k := s.keyTerm(v.Key, mt.Key())
+		s.markWrite(dom, m)
+		s.markWrite(val, m)
 		s.setH(dom, mkStore(s.H(dom), m, mkStore(mkSelect(s.H(dom), m), k, tTrue)))
 		s.setH(val, mkStore(s.H(val), m, mkStore(mkSelect(s.H(val), m), k, s.valTerm(v.Value))))
 		return adv()
@@ -828,6 +848,14 @@ func (x *Exec) step(s *State, in ssa.Instruction) bool {
 		x.unsup("concurrency instruction %T", in)
 	}
 	x.unsup("instruction %T not supported", in)
+	return false
+}
+
+func isConstOrGlobal(v ssa.Value) bool {
+	switch v.(type) {
+	case *ssa.Const, *ssa.Global, *ssa.Function, *ssa.Parameter:
+		return true
+	}
 	return false
 }
 
